@@ -322,6 +322,30 @@ theorem strip_params_is_prefix (isSpace : Char → Bool) (t : RoleText.Str) : st
     · exact List.prefix_refl _
   · exact List.prefix_refl _
 
+/-- **The reference side and the definition side agree on the name.** The directive of a prefixed object registers
+`prefix.name` for every written `name`; a plain reference written as `name` (no label, no flag, no escapes) links
+`prefix.name` too - unless the name already spells the prefix out (`prefix.`), in which case it is kept. In particular a
+name that merely BEGINS with the letters of the prefix (`bindiff` for the prefix `bin`) gets the prefix like any other
+(it used not to: fix in /repo). -/
+theorem role_prefix_agrees_with_directive (isSpace : Char → Bool) (pfx name : RoleText.Str) (hp : pfx ≠ [])
+    (hparse : parseExplicit isSpace name = (name, none))
+    (hflag : ∀ r, name ≠ '~' :: r ∧ name ≠ '!' :: r) :
+    (roleParse isSpace pfx .plain name).target =
+      if (pfx ++ ['.']).isPrefixOf name then name else pfx ++ '.' :: name := by
+  unfold roleParse
+  rw [hparse]
+  dsimp only
+  split
+  · rename_i r; exact absurd rfl (hflag r).1
+  · rename_i r; exact absurd rfl (hflag r).2
+  · by_cases hpre : (pfx ++ ['.']).isPrefixOf name = true
+    · simp [hpre]
+    · have : pfx.isEmpty = false := by cases pfx <;> simp_all
+      simp [hpre, this]
+
+example : (roleParse (· == ' ') "bin".toList .plain "bindiff".toList).target = "bin.bindiff".toList := by decide
+example : (roleParse (· == ' ') "bin".toList .plain "bin".toList).target = "bin.bin".toList := by decide
+
 example : roleParse (· == ' ') [] .callable "the finder <~db.coll.find(a, b)>".toList =
     ⟨"db.coll.find".toList, some "the finder".toList, "~".toList⟩ := by decide
 example : roleParse (· == ' ') "dbcmd".toList .plain "!find".toList = ⟨"dbcmd.find".toList, none, "!".toList⟩ := by decide
